@@ -2,7 +2,6 @@ package level
 
 import (
 	"io"
-	"math/bits"
 	"strconv"
 
 	"github.com/Tnze/go-mc/level/biome"
@@ -36,7 +35,7 @@ func NewStatesPaletteContainer(length int, defaultValue BlocksState) *PaletteCon
 
 func NewStatesPaletteContainerWithData(length int, data []uint64, pat []BlocksState) *PaletteContainer[BlocksState] {
 	var p palette[BlocksState]
-	n := savedBitsPerValue(length, len(data), len(pat), 4)
+	n := savedBitsPerValue(length, len(data), len(pat), 4, 8, block.BitsPerBlock)
 	switch n {
 	case 0:
 		p = &singleValuePalette[BlocksState]{pat[0]}
@@ -69,16 +68,19 @@ func NewStatesPaletteContainerWithData(length int, data []uint64, pat []BlocksSt
 
 // savedBitsPerValue returns the index width of a saved (palette, data) pair.
 // The number of longs alone is ambiguous (64 values of 3 bits and of 4 bits both
-// take 4 longs), so the palette size decides whenever it agrees with the data length.
-func savedBitsPerValue(length, longs, paletteLen, minBits int) int {
+// take 4 longs; 15-bit and 16-bit values both pack 4 per long), so the palette
+// decides: with a palette, the smallest indirect width that can index it and
+// matches the data length; without one, the registry-wide direct width.
+func savedBitsPerValue(length, longs, paletteLen, minBits, maxIndirectBits, directBits int) int {
 	if paletteLen > 1 {
-		b := bits.Len(uint(paletteLen - 1))
-		if b < minBits {
-			b = minBits
+		for b := minBits; b <= maxIndirectBits; b++ {
+			if 1<<b >= paletteLen && calcBitStorageSize(b, length) == longs {
+				return b
+			}
 		}
-		if calcBitStorageSize(b, length) == longs {
-			return b
-		}
+	}
+	if paletteLen == 0 && calcBitStorageSize(directBits, length) == longs {
+		return directBits
 	}
 	return calcBitsPerValue(length, longs)
 }
@@ -94,7 +96,7 @@ func NewBiomesPaletteContainer(length int, defaultValue BiomesState) *PaletteCon
 
 func NewBiomesPaletteContainerWithData(length int, data []uint64, pat []BiomesState) *PaletteContainer[BiomesState] {
 	var p palette[BiomesState]
-	n := savedBitsPerValue(length, len(data), len(pat), 1)
+	n := savedBitsPerValue(length, len(data), len(pat), 1, 3, biome.BitsPerBiome)
 	switch n {
 	case 0:
 		p = &singleValuePalette[BiomesState]{pat[0]}
